@@ -425,6 +425,11 @@ func (s *Lexer) getNextToken() (*Token, error) {
 			buf.WriteRune(ch)
 			current_state = SBLOCKCOMMENT
 		} else if current_state == SCOMMENTSTART {
+			if ch == '\n' {
+				s.unread_last()
+				current_state = SCOMMENT
+				break
+			}
 			buf.WriteRune(ch)
 			current_state = SCOMMENT
 		} else if ch == '(' && current_state == SSTART {
